@@ -26,7 +26,7 @@ THEOREMS = [
     "C20_replay_epoch_is_permutation", "C20_merge_padding", "C20_padding_is_zero", "C20_merge_padding_rowwise",
     "C20_seed_determines_stream", "C20_fastforward_eq_consume", "C20_fastforward_skips_stream",
     "C20_pickle_restarts", "C20_pickle_restarts_stream",
-]
+            "C20_source_new_eq", "C20_source_next_epoch_eq", "C20_source_fastforward_eq", "C20_source_iter_eq", "C20_source_pickle_eq", "C20_source_cat_eq", "C20_source_rb_iter_eq", "C20_source_epoch_is_permutation", "C20_source_fastforward_eq_consume", "C20_source_pickle_restarts", "C20_source_merge_padding", "C20_source_rb_epoch_is_permutation"]
 MODEL_TARGETS = ["model/Dataset.vo", "model/Harness.vo"]
 TRUSTED_BASE = [
     "torch.randperm(n, generator=g) returns a permutation of 0..n-1 and is a function of the generator state "
@@ -1095,3 +1095,21 @@ def replay(run, rp):
                 "model_view": cs.model_view(cs.terms[0]) if small else "omitted (large)"}
     finally:
         shutil.rmtree(tmpdir, ignore_errors=True)
+
+
+# ---- translator tie (T): the C20_source_* theorems quantify over functions REGENERATED FROM THE SOURCE; t20's
+# correspondence validates the semantics library and the translation scheme on every run.
+from . import t20 as _t20  # noqa: E402
+
+MODEL_TARGETS = sorted(set(list(MODEL_TARGETS) + list(_t20.MODEL_TARGETS)))
+TRUSTED_BASE = list(TRUSTED_BASE) + list(getattr(_t20, "TRUSTED_BASE", []))
+_c20_correspondence = correspondence
+
+
+def pregen(run):
+    return _t20.pregen(run)
+
+
+def correspondence(run):
+    _c20_correspondence(run)
+    _t20.correspondence(run)
